@@ -225,8 +225,11 @@ def gen_text(rng, ast, packages):
 _LINK = {"n": 0}
 
 
-def compare_sequence(ast, packages, texts):
-    """-> list of (ref, [(sig, detail)]) per text; one schema object serves all loads."""
+def compare_sequence(ast, packages, texts, late=None):
+    """-> list of (ref, [(sig, detail)]) per text; one schema object serves all loads.
+
+    late = {"package": p, "at": k}: package p only becomes importable (its directory is added to
+    sys.path) just before text k is loaded."""
     ZConfig = loadcheck.zc()
     comp = compose.Composed()
     comp.packages = {p: {"component.xml": gen.render_schema(a, root="component")} for p, a in packages.items()}
@@ -247,20 +250,56 @@ def compare_sequence(ast, packages, texts):
         comp.main_xml = gen.render_schema(ast)
     _LINK["n"] += 1
     comp.link_packages = _LINK["n"] % 3 == 0       # package directories that are symbolic links
+    use_registry = False
+    if _LINK["n"] % 4 == 1:
+        for p_ in comp.packages:
+            for fn_ in comp.packages[p_]:
+                new_ = comp.packages[p_][fn_].replace('datatype="string"', 'datatype="zcv-extra"')
+                use_registry = use_registry or new_ != comp.packages[p_][fn_]
+                comp.packages[p_][fn_] = new_
     results = []
     try:
         main = comp.materialise()
         try:
-            schema = ZConfig.loadSchema(main)
+            if use_registry:
+                # the application's own registry, extended by one name, given to the schema loader
+                import ZConfig.datatypes
+                import ZConfig.loader
+                reg = ZConfig.datatypes.Registry()
+                reg.register("zcv-extra", str)
+                schema = ZConfig.loader.SchemaLoader(reg).loadURL(main)
+            else:
+                schema = ZConfig.loadSchema(main)
         except Exception as e:  # noqa
             return [(None, [("application-schema-rejected", repr(e))])]
         import ZConfig.loader
         shared = ZConfig.loader.ConfigLoader(schema)      # one loader object for the whole sequence
-        for text in texts:
-            ref = refload.ref_load(ast, {MAIN: text}, MAIN, packages=packages, pin=True)
+        late_dir = None
+        if late:
+            import importlib
+            import os
+            import sys
+            late_dir = os.path.join(comp.root, "zcv-late")
+            os.mkdir(late_dir)
+            os.rename(os.path.join(comp.root, late["package"]), os.path.join(late_dir, late["package"]))
+            importlib.invalidate_caches()
+        for k_, text in enumerate(texts):
+            visible = packages
+            if late and k_ < late["at"]:
+                visible = {p_: a_ for p_, a_ in packages.items() if p_ != late["package"]}
+            elif late and late_dir not in sys.path:
+                sys.path.append(late_dir)
+                importlib.invalidate_caches()
+            ref = refload.ref_load(ast, {MAIN: text}, MAIN, packages=visible, pin=True)
             got = loadcheck.real_load(schema, text, url=MAIN)
             again = loadcheck.real_load_with(shared, text, MAIN)
             fl = []
+            hand = loadcheck.real_load_by_hand(schema, text, MAIN)
+            if ref.kind != "unspec" and hand[0] != got[0]:
+                fl.append(("parser-driven-by-hand-differs:%s-vs-%s" % (hand[0], got[0]),
+                           repr(hand[1])[:200]))
+            elif hand[0] == "ok" and got[0] == "ok" and digest.first_diff(digest.digest(got[1]), digest.digest(hand[1])):
+                fl.append(("parser-driven-by-hand-differs:tree", ""))
             if ref.kind != "unspec" and again[0] != got[0] and "internal" not in (again[0], got[0]):
                 fl.append(("reused-loader-differs:%s-vs-%s" % (again[0], got[0]),
                            "the same text through a loader object that served earlier loads of this sequence"))
@@ -281,6 +320,10 @@ def compare_sequence(ast, packages, texts):
                 fl.append(("accepted-but-rules-reject:%s" % ref.rule, repr(ref)))
             results.append((ref, fl))
     finally:
+        if late:
+            import sys
+            if late_dir in sys.path:
+                sys.path.remove(late_dir)
         comp.cleanup()
     return results
 
@@ -292,7 +335,7 @@ def evaluate(case):
             return []
     try:
         refload.compile_schema(case["schema"])
-        res = compare_sequence(case["schema"], pk, case["texts"])
+        res = compare_sequence(case["schema"], pk, case["texts"], case.get("late"))
     except (KeyError, ValueError, AttributeError, TypeError):
         return []
     out = []
@@ -318,7 +361,21 @@ def run_shard(spec):
         ast, packages = gen_case(rng, pkgbase)
         texts = [gen_text(rng, ast, packages) for _ in range(rng.randint(1, 4))]
         case = {"schema": ast, "packages": packages, "texts": texts}
-        results = compare_sequence(ast, packages, texts)
+        late = None
+        independent = [p_ for p_ in sorted(packages) if "." not in p_
+                       and not any(p_ in (a_.get("imports") or []) for a_ in packages.values())
+                       and (ast.get("_extra_import") or {}).get("package") != p_
+                       and p_ not in [x[0] if isinstance(x, (list, tuple)) else x for x in ast.get("imports") or []]]
+        if independent and rng.random() < 0.2:
+            # a package that only becomes importable in the course of the sequence
+            pl = rng.choice(independent)
+            texts = texts + ["%%import %s\n" % pl + gen_text(rng, ast, packages)]
+            at = rng.randint(1, len(texts) - 1)
+            texts.insert(at - 1, rng.choice(["%%import %s\n" % pl, texts[-1]]))
+            late = {"package": pl, "at": at}
+            case = {"schema": ast, "packages": packages, "texts": texts, "late": late}
+            counters["sequence-with:package-importable-later"] += 1
+        results = compare_sequence(ast, packages, texts, late)
         counters["packages:%d" % len(packages)] += 1
         nt = False
         for ref, fl in results:
